@@ -465,6 +465,23 @@ def _robs(o):
     return "ObAssert"   # an unexpected exception class: forces a disagreement
 
 
+def gen(ctx):
+    """C12 for the code of this run (EByte client): C12_delivery instantiated with the composed decoder of the
+    regenerated tables (tools/templates/OblC12.v)"""
+    import gen as G
+    g = G.ensure_gen()
+    if not g["ok"]:
+        ctx.extra_obligations.append({"name": "translation of nmea2000/pgns.py + canboat.json", "ok": False,
+                                      "detail": g.get("refused") or g.get("error")})
+        ctx.hints.append({"kind": "translator", "detail": g.get("refused") or g.get("error")})
+        return
+    ok, out = G.compile_template("OblC12")
+    for nm in G.theorem_names("OblC12"):
+        ctx.extra_obligations.append({"name": f"OblC12.v:{nm}", "ok": ok, "detail": out[-800:] if not ok else ""})
+    if not ok:
+        ctx.hints.append({"kind": "tables", "diag": "OblC12.v: " + " ".join(out.split())[-800:]})
+
+
 def correspond(ctx):
     reports = []
     # ---- (a) StreamReader
